@@ -333,7 +333,7 @@ labelled points of the watchdog / reader (verif-hooks H3). Oracle S1-S4. non-tri
     }
 
     fn cases_per_worker(tier: Tier) -> u32 {
-        tier.pick(14, 200)
+        tier.pick(14, 800)
     }
 
     fn enumerated(_tier: Tier, worker: usize, nworkers: usize) -> Option<Box<dyn Iterator<Item = Case>>> {
